@@ -293,8 +293,7 @@ contract('gnpy.core.elements.Edfa.interpol_params', props=['C04'],
          params={'self': EDFA('variable_gain'), 'spectral_info': SI()}, spec=SPEC_EL + SPEC_NF,
          let={'p': 'self.params', 'n': 'NCH(spectral_info)'},
          requires=[('inv', 'INV(spectral_info)')],
-         # a one-channel spectrum cannot be amplified (slot width is taken from the first two channels): finding F16
-         raises={'IndexError': 'NCH(spectral_info) < 2'},
+         # a one-channel spectrum is amplified like any other (F16, fixed: the slot width was read from the first two channels)
          ensures=[('pin_is_total_input_power', 'self.pin_db == W(sum(spectral_info._pch))'),
                   # saturation clamp on TOTAL power: reduced only as far as needed
                   ('clamp', 'self.effective_gain == (old(self.effective_gain) if old(self.effective_gain) <= p.p_max - self.pin_db '
@@ -317,7 +316,6 @@ contract('gnpy.core.elements.Edfa.propagate', props=['C04', 'C01', 'C02', 'C05']
               'voa_in': '(1 if self.in_voa is None else spec_db2lin(self.in_voa))'},
          requires=[('inv', 'INV(spectral_info)'),
                    ('physical', 'forall(lambda i: si._frequency[i] > 0 and si._baud_rate[i] > 0, n)')],
-         raises={'IndexError': 'NCH(spectral_info) < 2'},
          ensures=[('inv', 'INV(spectral_info)'),
                   # total input power is taken after the input VOA
                   ('pin_after_in_voa', 'self.pin_db == W(sum(old(si._pch) / voa_in))' ),
